@@ -32,6 +32,11 @@ def rules(ctx):
     # an older version: the builder-side accumulation rule of C10.2 is a necessary condition of point reads too
     from . import C10
     C10.c102(ctx)
+    # a garbage collection that judges a key by another key's tombstones drops the entry that decides its current value:
+    # the collector's per-key state rule (C05.5) and its confinement to the last level (C05.1) are necessary here too
+    from . import C05
+    C05.c051(ctx)
+    C05.c055(ctx)
 
 
 def false_edges_of(f, callee_pat, arg_pred=None):
